@@ -24,15 +24,27 @@ type Mapping struct {
 }
 
 type Decl struct {
+	Indirect bool    `json:"indirect,omitempty"` // data through AddInputWithOptions(WithNoDirectDependency), control through a relay node
 	S      string    `json:"s"`                // predecessor output type
 	Val    *V        `json:"val"`              // what the predecessor returns (Invoke)
 	Chunks []*V      `json:"chunks,omitempty"` // what it streams (Stream); empty = [Val]
 	Maps   []Mapping `json:"maps"`             // empty = plain AddInput (no field mapping)
 }
 
+// a static value of the successor (WorkflowNode.SetStaticValue): a constant put at a target path
+type Static struct {
+	To  []string `json:"to"`
+	Val *V       `json:"val"`
+}
+
 type Case struct {
-	T     string `json:"t"` // successor (END) input type
-	Decls []Decl `json:"decls"`
+	T       string   `json:"t"` // successor (END) input type
+	Decls   []Decl   `json:"decls"`
+	Statics []Static `json:"statics,omitempty"`
+	Mid     bool     `json:"mid,omitempty"` // the successor is a middle node, not END
+	// a unit case (non-empty Unit): convertTo (through the verif hook) on the map Unit for type T,
+	// repeated; overlapping keys allowed (the Go map's iteration order then shows)
+	Unit []Static `json:"unit,omitempty"`
 	Short bool   `json:"short,omitempty"` // use FromField/ToField/MapFields for one-element paths
 	Note  string `json:"note,omitempty"`  // generator's description of the pattern (not used by Run)
 }
@@ -59,12 +71,12 @@ type srcOf[S any] struct{}
 
 func (srcOf[S]) lambda(vals []reflect.Value) *compose.Lambda {
 	if len(vals) == 1 {
-		v := vals[0].Interface().(S)
+		v, _ := vals[0].Interface().(S) // a nil interface value (S = any) stays the nil S
 		return compose.InvokableLambda(func(ctx context.Context, in int) (S, error) { return v, nil })
 	}
 	arr := make([]S, len(vals))
 	for i, v := range vals {
-		arr[i] = v.Interface().(S)
+		arr[i], _ = v.Interface().(S)
 	}
 	return compose.StreamableLambda(func(ctx context.Context, in int) (*schema.StreamReader[S], error) {
 		cp := make([]S, len(arr))
@@ -79,14 +91,24 @@ type runFns struct {
 }
 
 type tgtHandle interface {
-	build(add func(wf wfAPI)) (*runFns, error)
+	// mid: the successor of the mappings is a middle node (a stream-transparent identity lambda of
+	// type T whose output goes to END by a plain edge) instead of END itself
+	build(mid bool, add func(wf wfAPI, succ *compose.WorkflowNode)) (*runFns, error)
 }
 type tgtOf[T any] struct{}
 
-func (tgtOf[T]) build(add func(wf wfAPI)) (*runFns, error) {
+func (tgtOf[T]) build(mid bool, add func(wf wfAPI, succ *compose.WorkflowNode)) (*runFns, error) {
 	ctx := context.Background()
 	wf := compose.NewWorkflow[int, T]()
-	add(wf)
+	if mid {
+		succ := wf.AddLambdaNode("mid", compose.TransformableLambda(func(ctx context.Context, in *schema.StreamReader[T]) (*schema.StreamReader[T], error) {
+			return in, nil
+		}))
+		add(wf, succ)
+		wf.End().AddInput("mid")
+	} else {
+		add(wf, wf.End())
+	}
 	r, err := wf.Compile(ctx)
 	if err != nil {
 		return nil, err
@@ -143,6 +165,7 @@ var srcHandles = map[string]srcHandle{
 	"string":                    srcOf[string]{},
 	"map[string]map[string]any": srcOf[map[string]map[string]any]{},
 	"*any":                      srcOf[*any]{},
+	"any":                       srcOf[any]{},
 }
 
 var tgtHandles = map[string]tgtHandle{
@@ -166,6 +189,14 @@ var tgtHandles = map[string]tgtHandle{
 	"map[string]map[string]any": tgtOf[map[string]map[string]any]{},
 	"*any":                      tgtOf[*any]{},
 	"map[string]Outer":          tgtOf[map[string]Outer]{},
+}
+
+// the Go value of a static value: an `any` holding the value of its dynamic type (invalid = nil)
+func staticValue(v *V) reflect.Value {
+	if v.K == "nil" {
+		return reflect.Value{}
+	}
+	return build(v, goType(v.dynType()))
 }
 
 func fieldMapping(m Mapping, short bool) *compose.FieldMapping {
@@ -261,8 +292,14 @@ func execute(c *Case) *outcome {
 	}
 	// fresh source values for every execution, and a pristine twin for the "source unmodified" oracle
 	type built struct{ inv, twin []reflect.Value }
-	mk := func(streaming bool) ([]built, func(wf wfAPI)) {
-		bs := make([]built, len(c.Decls))
+	mk := func(streaming bool) ([]built, func(wf wfAPI, succ *compose.WorkflowNode)) {
+		bs := make([]built, len(c.Decls)+1)
+		for _, s := range c.Statics {
+			// the static values (and pristine twins) are the last "declaration" of the source-unmodified oracle
+			k := len(c.Decls)
+			bs[k].inv = append(bs[k].inv, staticValue(s.Val))
+			bs[k].twin = append(bs[k].twin, staticValue(s.Val))
+		}
 		for i := range c.Decls {
 			d := &c.Decls[i]
 			st := goType(d.S)
@@ -275,7 +312,7 @@ func execute(c *Case) *outcome {
 				bs[i].twin = append(bs[i].twin, build(v, st))
 			}
 		}
-		add := func(wf wfAPI) {
+		add := func(wf wfAPI, succ *compose.WorkflowNode) {
 			for i := range c.Decls {
 				sh, ok := srcHandles[c.Decls[i].S]
 				if !ok {
@@ -288,7 +325,23 @@ func execute(c *Case) *outcome {
 				for _, m := range c.Decls[i].Maps {
 					fms = append(fms, fieldMapping(m, c.Short))
 				}
-				wf.End().AddInput(fmt.Sprintf("n%d", i), fms...)
+				if c.Decls[i].Indirect {
+					// control: n_i -> relay_i -> successor; data: n_i -> successor without direct dependency
+					relay := fmt.Sprintf("relay%d", i)
+					wf.AddLambdaNode(relay, compose.InvokableLambda(func(ctx context.Context, in int) (int, error) { return in, nil })).
+						AddDependency(fmt.Sprintf("n%d", i)).AddInput(compose.START)
+					succ.AddDependency(relay)
+					succ.AddInputWithOptions(fmt.Sprintf("n%d", i), fms, compose.WithNoDirectDependency())
+				} else {
+					succ.AddInput(fmt.Sprintf("n%d", i), fms...)
+				}
+			}
+			for j, s := range c.Statics {
+				var v any
+				if sv := bs[len(c.Decls)].inv[j]; sv.IsValid() {
+					v = sv.Interface()
+				}
+				succ.SetStaticValue(compose.FieldPath(s.To), v)
 			}
 		}
 		return bs, add
@@ -296,6 +349,9 @@ func execute(c *Case) *outcome {
 	checkSrc := func(bs []built, what string) {
 		for i, b := range bs {
 			for j := range b.inv {
+				if !b.inv[j].IsValid() {
+					continue
+				}
 				if !reflect.DeepEqual(b.inv[j].Interface(), b.twin[j].Interface()) {
 					o.SrcMod = append(o.SrcMod, fmt.Sprintf("%s: decl %d value %d", what, i, j))
 				}
@@ -307,7 +363,7 @@ func execute(c *Case) *outcome {
 	bsI, addI := mk(false)
 	var fns *runFns
 	var cerr error
-	if p, hung := withWatchdog(func() { fns, cerr = th.build(addI) }); p != nil || hung {
+	if p, hung := withWatchdog(func() { fns, cerr = th.build(c.Mid, addI) }); p != nil || hung {
 		o.Compile, o.CompMsg = "panic", firstLine(fmt.Sprint(p))
 		return o
 	}
@@ -334,7 +390,7 @@ func execute(c *Case) *outcome {
 	// --- Stream on a separately compiled workflow (sources stream their chunks)
 	bsS, addS := mk(true)
 	var fnsS *runFns
-	if p, hung := withWatchdog(func() { fnsS, cerr = th.build(addS) }); p != nil || hung || cerr != nil {
+	if p, hung := withWatchdog(func() { fnsS, cerr = th.build(c.Mid, addS) }); p != nil || hung || cerr != nil {
 		o.Stream, o.StrMsg = "panic", "second compile differs: "+firstLine(fmt.Sprint(p, cerr))
 		return o
 	}
@@ -369,4 +425,76 @@ func (o *outcome) key() string {
 		b.WriteString(";" + v.String())
 	}
 	return b.String()
+}
+
+// ------------------------------------------------------------------ unit cases: convertTo directly
+
+type unitOutcome struct {
+	Res    string `json:"res"` // ok | panic
+	Val    *V     `json:"val,omitempty"`
+	Msg    string `json:"msg,omitempty"`
+	SrcMod bool   `json:"source_modified,omitempty"`
+}
+
+func (u *unitOutcome) key() string {
+	s := u.Res
+	if u.Val != nil {
+		s += "=" + u.Val.String()
+	}
+	if u.SrcMod {
+		s += "|srcmod"
+	}
+	return s
+}
+
+const unitReps = 16
+
+// distinct outcomes of unitReps calls of convertTo on fresh copies of the values
+func executeUnit(c *Case) []*unitOutcome {
+	T := goType(c.T)
+	seen := map[string]bool{}
+	var outs []*unitOutcome
+	for rep := 0; rep < unitReps; rep++ {
+		m := make(map[string]any, len(c.Unit))
+		vals := make([]reflect.Value, len(c.Unit))
+		twins := make([]reflect.Value, len(c.Unit))
+		for i, s := range c.Unit {
+			vals[i], twins[i] = staticValue(s.Val), staticValue(s.Val)
+			var v any
+			if vals[i].IsValid() {
+				v = vals[i].Interface()
+			}
+			m[strings.Join(s.To, compose.VerifC15PathSeparator)] = v
+		}
+		o := &unitOutcome{}
+		var out any
+		p, hung := withWatchdog(func() { out, _ = compose.VerifC15ConvertTo(m, T) })
+		switch {
+		case hung:
+			o.Res, o.Msg = "panic", "hang"
+		case p != nil:
+			o.Res, o.Msg = "panic", firstLine(fmt.Sprint(p))
+		default:
+			rv := reflect.New(T).Elem()
+			if out != nil {
+				rv.Set(reflect.ValueOf(out))
+			}
+			o.Res, o.Val = "ok", render(rv)
+		}
+		for i := range vals {
+			if vals[i].IsValid() && !reflect.DeepEqual(vals[i].Interface(), twins[i].Interface()) {
+				o.SrcMod = true
+			}
+		}
+		if !seen[o.key()] {
+			seen[o.key()] = true
+			outs = append(outs, o)
+		}
+	}
+	for i := 1; i < len(outs); i++ {
+		for j := i; j > 0 && outs[j].key() < outs[j-1].key(); j-- {
+			outs[j], outs[j-1] = outs[j-1], outs[j]
+		}
+	}
+	return outs
 }
